@@ -23,6 +23,7 @@ VERIF = os.path.abspath(os.path.join(HERE, "..", ".."))
 REPO = os.environ.get("VERIF_REPO", "/repo")
 RUST = os.path.join(REPO, "rust")
 CACHE = os.environ.get("VERIF_CACHE", os.path.join(VERIF, ".cache"))
+EVIDENCE = os.environ.get("VERIF_EVIDENCE", os.path.join(VERIF, "evidence"))  # developer self-tests redirect this
 DRIVER_DIR = os.path.join(VERIF, "engine", "compassfacts")
 DRIVER = os.path.join(DRIVER_DIR, "target", "debug", "compassfacts")
 
@@ -34,16 +35,16 @@ def sh(cmd, **kw):
     return subprocess.run(cmd, shell=True, stdout=subprocess.PIPE, stderr=subprocess.STDOUT, text=True, **kw)
 
 
-def source_hash():
+def source_hash(rust_root=None):
     h = hashlib.sha256()
     files = []
-    for root, dirs, fs in os.walk(RUST):
+    for root, dirs, fs in os.walk(rust_root or RUST):
         dirs[:] = sorted(d for d in dirs if d not in ("target", ".git"))
         for f in sorted(fs):
             if f.endswith((".rs", ".toml", ".lock")):
                 files.append(os.path.join(root, f))
     for f in files:
-        h.update(f.encode())
+        h.update(os.path.relpath(f, rust_root or RUST).encode())
         with open(f, "rb") as fh:
             h.update(fh.read())
     # the driver itself is part of the key
@@ -68,15 +69,16 @@ def build_driver():
         sys.exit(3)
 
 
-def extract(profile="dev"):
-    """returns (facts_dir, info). Re-extracts when the source hash changed."""
+def extract(profile="dev", rust_root=None, fdir=None):
+    """returns (facts_dir, info). Re-extracts when the source hash changed.
+    rust_root/fdir: analyse another copy of the workspace (thorough-tier self-test on a scratch copy)."""
     os.makedirs(CACHE, exist_ok=True)
     lock = open(os.path.join(CACHE, "extract.lock"), "w")
     fcntl.flock(lock, fcntl.LOCK_EX)
     try:
         build_driver()
-        h, nfiles = source_hash()
-        fdir = os.path.join(CACHE, "facts-" + profile)
+        h, nfiles = source_hash(rust_root)
+        fdir = fdir or os.path.join(CACHE, "facts-" + profile)
         stamp = os.path.join(fdir, "STAMP.json")
         if os.path.exists(stamp):
             try:
@@ -113,7 +115,9 @@ def extract(profile="dev"):
         )
         env.pop("RUSTC_WRAPPER", None)
         cmd = "cargo +nightly check --offline --workspace" + (" --release" if profile == "release" else "")
-        r = subprocess.run(cmd, shell=True, cwd=RUST, env=env, stdout=subprocess.PIPE, stderr=subprocess.STDOUT, text=True)
+        r = subprocess.run(cmd, shell=True, cwd=rust_root or RUST, env=env, stdout=subprocess.PIPE, stderr=subprocess.STDOUT, text=True)
+        if r.returncode != 0 and rust_root is not None:
+            raise RuntimeError("scratch copy does not build: %s" % r.stdout[-400:])
         if r.returncode != 0:
             print(r.stdout[-6000:])
             print("ERROR: /repo/rust does not build under the fact extractor (exit %d); no verdict" % r.returncode)
@@ -221,6 +225,100 @@ def run_rules(pid, tier, F):
     return ctx
 
 
+WITNESS_DIR = os.path.join(VERIF, "engine", "witness")
+
+
+def witnesses(pid, ctx):
+    """E3: rustdoc compile_fail witnesses (with error codes) and their compiling twins for this property, built against
+    /repo/rust's current sources.  A witness that no longer behaves as stated is a violation `Cxx|Cxx.E3|<doc test>`."""
+    import re as _re
+
+    src = open(os.path.join(WITNESS_DIR, "src", "lib.rs")).read()
+    prefix = pid.lower() + "_"
+    if ("pub mod " + prefix) not in src:
+        return
+    rid = pid + ".E3"
+    ctx.rule(rid, "type-level witnesses: each `compile_fail,E…` doc test fails to compile with exactly that error code and its twin compiles (cargo +nightly test --doc, crate engine/witness, path-dependent on /repo/rust)", floor=2)
+    lock = open(os.path.join(CACHE, "witness.lock"), "w")
+    fcntl.flock(lock, fcntl.LOCK_EX)
+    try:
+        sh("cp %s %s" % (os.path.join(RUST, "Cargo.lock"), os.path.join(WITNESS_DIR, "Cargo.lock")))
+        env = dict(os.environ, CARGO_NET_OFFLINE="true", CARGO_TARGET_DIR=os.path.join(CACHE, "target-witness"))
+        env.pop("RUSTC_WORKSPACE_WRAPPER", None)
+        r = subprocess.run("cargo +nightly test --doc --offline -- %s" % prefix, shell=True, cwd=WITNESS_DIR, env=env, stdout=subprocess.PIPE, stderr=subprocess.STDOUT, text=True)
+    finally:
+        fcntl.flock(lock, fcntl.LOCK_UN)
+        lock.close()
+    n = 0
+    for line in r.stdout.splitlines():
+        m = _re.match(r"^test src/lib.rs - (\S+) \(line (\d+)\)( - compile fail)? \.\.\. (\w+)", line)
+        if not m:
+            continue
+        n += 1
+        # instance key without the line number: module name + ordinal of kind
+        inst = "%s:%s" % (m.group(1), "compile_fail" if m.group(3) else "twin")
+        ctx.check(m.group(4) == "ok", inst + "@L" + m.group(2), "the type-level witness no longer behaves as stated (a compile_fail witness compiles or fails with another error, or its twin does not compile)", "engine/witness/src/lib.rs:%s" % m.group(2), detail="doc test at line %s: %s" % (m.group(2), m.group(4)), rule=rid)
+    if n == 0:
+        ctx.bad("witness-run", "no witness result could be read (build failed?): %s" % r.stdout[-400:], rule=rid)
+
+
+def selftest(pid, base_keys):
+    """Thorough tier, checker self-validation: every seeded change kept for this property under /verif/seeded is applied to a
+    scratch copy of /repo/rust (outside /repo and /verif, removed afterwards), the scratch copy is re-analysed and the property's
+    rules must report a violation that the unchanged tree does not have.  The verdict on the property still comes from /repo;
+    a missed seeded change is recorded in the evidence (checker weakness), it is not a violation of the property."""
+    import shutil
+    import tempfile
+
+    seeded = os.path.join(VERIF, "seeded")
+    out = {"variants": [], "detected": 0, "missed": 0, "skipped": 0}
+    ids = []
+    for d in sorted(os.listdir(seeded)) if os.path.isdir(seeded) else []:
+        mp = os.path.join(seeded, d, "meta.json")
+        if os.path.exists(mp):
+            try:
+                m = json.load(open(mp))
+            except Exception:
+                continue
+            if m.get("property") == pid and m.get("kind", "breaking") == "breaking":
+                ids.append(d)
+    if not ids:
+        return out
+    scratch = os.path.join(tempfile.gettempdir(), "verif-selftest-%d" % os.getuid())
+    try:
+        for sid in ids:
+            shutil.rmtree(scratch, ignore_errors=True)
+            os.makedirs(os.path.join(scratch, "repo"))
+            r = sh("rsync -a --exclude target --exclude .git %s/ %s/repo/rust/" % (RUST, scratch))
+            if r.returncode != 0:
+                out["variants"].append({"id": sid, "result": "skipped", "why": "copy failed"})
+                out["skipped"] += 1
+                continue
+            r = sh("cd %s/repo && git apply --unsafe-paths %s" % (scratch, os.path.join(seeded, sid, "patch.diff")))
+            if r.returncode != 0:
+                out["variants"].append({"id": sid, "result": "skipped", "why": "patch no longer applies to the current tree"})
+                out["skipped"] += 1
+                continue
+            try:
+                fdir, st = extract("dev", rust_root=os.path.join(scratch, "repo", "rust"), fdir=os.path.join(scratch, "facts"))
+                F = core.Facts(fdir)
+                ctx = run_rules(pid, "quick", F)
+                new = sorted({v["key"] for v in ctx.violations} - base_keys)
+            except Exception as e:
+                out["variants"].append({"id": sid, "result": "skipped", "why": "scratch analysis failed: %s" % str(e)[:200]})
+                out["skipped"] += 1
+                continue
+            if new:
+                out["detected"] += 1
+                out["variants"].append({"id": sid, "result": "detected", "by": new[:4]})
+            else:
+                out["missed"] += 1
+                out["variants"].append({"id": sid, "result": "MISSED"})
+    finally:
+        shutil.rmtree(scratch, ignore_errors=True)
+    return out
+
+
 def main():
     if len(sys.argv) < 2:
         print("usage: run.py <Cxx> [quick|thorough]")
@@ -248,7 +346,17 @@ def main():
                 v["message"] = "[release profile] " + v["message"]
                 all_viol.append(v)
         profiles.append(dict(st2, violations=len(ctx2.violations)))
-        # witnesses and self-tests hooks
+        # E3 witnesses
+        try:
+            nb = len(ctx.violations)
+            witnesses(pid, ctx)
+            keys = {v["key"] for v in all_viol}
+            for v in ctx.violations[nb:]:
+                if v["key"] not in keys:
+                    all_viol.append(v)
+        except Exception as e:
+            ctx.note("witness step failed to run: %s" % e)
+        # per-property thorough hooks
         mod = importlib.import_module("props." + pid)
         extra = getattr(mod, "THOROUGH", None)
         if extra:
@@ -263,6 +371,11 @@ def main():
                 if v["key"] not in keys:
                     all_viol.append(v)
 
+    st_result = None
+    if tier == "thorough" and os.environ.get("VERIF_SELFTEST", "1") != "0":
+        st_result = selftest(pid, {v["key"] for v in all_viol})
+        ctx.note("self-test on a scratch copy: %d seeded variants of the current tree re-analysed, %d detected, %d missed, %d skipped: %s" % (len(st_result["variants"]), st_result["detected"], st_result["missed"], st_result["skipped"], "; ".join("%s=%s" % (v["id"], v["result"]) for v in st_result["variants"])))
+
     # known findings
     kf_path = os.path.join(VERIF, "known_findings.json")
     known = {}
@@ -273,8 +386,8 @@ def main():
     new = [v for v in all_viol if v["key"] not in known]
     old = [v for v in all_viol if v["key"] in known]
 
-    os.makedirs(os.path.join(VERIF, "evidence"), exist_ok=True)
-    report = os.path.join(VERIF, "evidence", pid + ".report.txt")
+    os.makedirs(EVIDENCE, exist_ok=True)
+    report = os.path.join(EVIDENCE, pid + ".report.txt")
     with open(report, "w") as fh:
         fh.write("property %s  tier %s  source-hash %s\n" % (pid, tier, st["hash"][:16]))
         for v in new:
@@ -336,13 +449,14 @@ def main():
             "profiles": profiles,
             "notes": ctx.notes,
             "known_findings_reported": [v["key"] for v in old],
+            "selftest": st_result,
             "exhaustive": False,
         },
         "assumptions": ctx.assumptions,
         "wall_s": round(time.time() - t0, 3),
         "violations": len(new),
     }
-    with open(os.path.join(VERIF, "evidence", pid + ".json"), "w") as fh:
+    with open(os.path.join(EVIDENCE, pid + ".json"), "w") as fh:
         json.dump(ev, fh, indent=1, default=str)
     print("%s %s: %d rules, %d obligations, %d discharged, %d violations (%d known) in %.1fs" % (pid, tier, len(ctx.rules), obligations, discharged, len(new), len(old), time.time() - t0))
     sys.exit(1 if new else 0)
